@@ -63,8 +63,16 @@ PROFILE = gen_scc.profile(max_temps=4, **_COMMON)
 PROFILE_THOROUGH = gen_scc.profile(max_temps=5, max_kernels=4, max_blocks=7, **_COMMON)
 
 
-def pool_may_be_empty(m):
-    return bool(m['ns'].get('alias')) or all(t['shape'] == 'v1' for k in m['kernels'] for t in k['temps'])
+def pool_may_be_empty(m, scc=None):
+    """
+    True unless some kernel is guaranteed to have a pool-allocated temporary: the allocator skips vertical temporaries, temporaries
+    that are never referenced in the kernel body ("Filter out unused vars") and those whose size names are kernel-side aliases; a
+    preceding SCC stage may demote temporaries without a non-constant second dimension (conservative)
+    """
+    if m['ns'].get('alias'):
+        return True
+    shapes = ('r2', 'r2z', 'r2p', 'r3') if scc else ('r1', 'r2', 'r2z', 'r2p', 'r2c', 'r3')
+    return not any(t['shape'] in shapes and gen_scc._mentions(k['body'], t['name']) for k in m['kernels'] for t in k['temps'])
 
 
 def case_triggers(case):
@@ -86,7 +94,8 @@ def case_triggers(case):
                                index to the kernel dummies and passes it by keyword, the stack stage then appends its dummies
                                after it but passes the actuals positionally (same pattern as C37 shoist_positional)
       pool_empty_stack             pool allocator (cray_ptr_loc_rhs=False) when no temporary is pool-allocated (kernel-side size aliases
-                               are not recognised by it, or only vertical temporaries): LOC(ZSTACK(1, b)) of a zero-size stack
+                               are not recognised by it, only vertical temporaries, or only temporaries that are never referenced, which
+                               it filters out): LOC(ZSTACK(1, b)) of a zero-size stack
       stack_dummy_contiguous   FtrPtr / DirectIdx stack: the explicit-shape stack dummy is declared CONTIGUOUS (rejected by gfortran);
                                present whenever the attribute is NOT stripped (variant flag keep_contiguous)
     """
@@ -98,7 +107,7 @@ def case_triggers(case):
         t.append('stack_dummy_contiguous')
     if v['alloc'] == 'ftrptr' and v.get('keep_ptr_upper'):
         t.append('ftrptr_section_one_too_long')
-    if v['alloc'] == 'pool' and not v.get('loc_rhs') and 'model' in case and pool_may_be_empty(case['model']):
+    if v['alloc'] == 'pool' and not v.get('loc_rhs') and 'model' in case and pool_may_be_empty(case['model'], v.get('scc')):
         t.append('pool_empty_stack')
     if v['alloc'] == 'directidx' and 'model' in case and gen_scc.temp_section_over_levels(case['model']):
         t.append('directidx_discontiguous_section')
@@ -241,7 +250,7 @@ def cases(draw, prof, triggers, first=0, salt=None):
             v['demote'] = int(not g.chance(30))
         if a == 'pool':
             v['loc_rhs'] = int(g.chance(50))
-            if not v['loc_rhs'] and not triggers['pool_empty_stack'] and pool_may_be_empty(m):
+            if not v['loc_rhs'] and not triggers['pool_empty_stack'] and pool_may_be_empty(m, v.get('scc')):
                 avoided.append('pool_empty_stack')
                 v['loc_rhs'] = 1
         if a in ('hoist', 'hoist-alloc'):
